@@ -1,4 +1,125 @@
-From MV Require Import C13.Model C13.Proofs.
-Theorem evl_stub : True.
-Proof. exact stub_true. Qed.
-Print Assumptions evl_stub.
+(* C13 — event loop life-cycle; select / poll / epoll agree.  Property theorems only: each is
+   closed by [exact] of a lemma proved in C13/Proofs*.v and followed by Print Assumptions.
+   [runs b sc os] = the loop of back-end b on script sc, one iteration per kernel report in the
+   oracle list os (ANY list: the life-cycle theorems do not rely on the kernel behaving);
+   the result flag tells whether the loop has exited.  Traces are newest-first. *)
+From MV Require Import C13.Model C13.ProofsLife C13.ProofsIso C13.ProofsAgree.
+From Coq Require Import Permutation.
+
+(* the close callback runs at most once per context *)
+Theorem evl_close_once : forall b sc os x,
+  count_occ ev_eq_dec (tr (fst (runs b sc os))) (EClose x) <= 1.
+Proof. exact life_close_once. Qed.
+Print Assumptions evl_close_once.
+
+(* after a context's close callback no read, close or clear callback mentions it again *)
+Theorem evl_no_callback_after_close : forall b sc os x t1 t2,
+  rev (tr (fst (runs b sc os))) = t1 ++ EClose x :: t2 ->
+  forall e, In e t2 -> touches e x = false.
+Proof. exact life_no_callback_after_close. Qed.
+Print Assumptions evl_no_callback_after_close.
+
+(* when the loop exits: clear callback exactly once, in list order, for exactly the contexts that
+   add_ctx accepted and that were not closed; nothing cleared or exited before; exit callback last *)
+Theorem evl_clear_once_for_remaining : forall b sc os s',
+  runs b sc os = (s', true) ->
+  exists s1,
+    tr s' = EExit :: rev (map EClear (clist s1)) ++ tr s1 /\
+    NoDup (clist s1) /\
+    (forall x, In x (clist s1) <-> In (EAct (AAdd x) 0) (tr s1) /\ ~ In (EClose x) (tr s1)) /\
+    ~ In EExit (tr s1) /\ (forall x, ~ In (EClear x) (tr s1)).
+Proof. exact life_clear_and_exit. Qed.
+Print Assumptions evl_clear_once_for_remaining.
+
+(* the exit callback runs at most once (exactly once, last, by the previous theorem, when the loop
+   exits; never while it is running) *)
+Theorem evl_exit_once : forall b sc os,
+  count_occ ev_eq_dec (tr (fst (runs b sc os))) EExit <= 1.
+Proof. exact life_exit_once. Qed.
+Print Assumptions evl_exit_once.
+
+Theorem evl_no_clear_or_exit_while_running : forall b sc os s',
+  runs b sc os = (s', false) -> ~ In EExit (tr s') /\ forall x, ~ In (EClear x) (tr s').
+Proof. exact life_no_exit_before. Qed.
+Print Assumptions evl_no_clear_or_exit_while_running.
+
+(* FULL STATEMENT evl_read_called_when_pending: in every pass, every registered context the
+   kernel reported readable gets its read callback in that pass.
+   PROVED: the epoll back-end, per epoll_wait batch (below).  For select and poll the loop body
+   calls the read callback of the context under the cursor when it is reported (by definition of
+   sel_walk / poll_step); that the cursor reaches every registered context in the pass is not proved
+   (select: fuel of the list walk; poll: n accounting, and it is FALSE for poll when an fd reports
+   POLLIN and POLLHUP together, see evl_poll_skipped_slot_untouched and the example
+   poll_double_decrement_skips_one_pass).  The monitor checks the per-pass rule on every run. *)
+Theorem evl_read_called_when_pending_partial : forall rep s, Inv s -> bk s = BEpoll ->
+  forall x e, In (x, e) (ep_filter [] (ereg s) rep) -> x <> 0 -> has_in e = true ->
+  exists t n, tr (dispatch_epoll rep s) = t ++ tr s /\ In (ERead x n) t.
+Proof. exact read_dispatch_epoll. Qed.
+Print Assumptions evl_read_called_when_pending_partial.
+
+(* poll: the step at slot i leaves every lower slot (context and revents) as it was, so a slot the
+   walk does not reach in this pass (n used up by a POLLIN+POLLHUP fd counted twice) is still
+   registered with its descriptor and data: the next poll() reports it again *)
+Theorem evl_poll_skipped_slot_untouched : forall i n s j, Inv s -> bk s = BPoll ->
+  1 <= i -> j < i -> i < length (parr s) ->
+  nth_error (parr (fst (poll_step i n s))) j = nth_error (parr s) j.
+Proof. exact poll_step_lower. Qed.
+Print Assumptions evl_poll_skipped_slot_untouched.
+
+(* every state between two kernel calls satisfies the invariant used above *)
+Theorem evl_invariant_reachable : forall b sc os s, runs b sc os = (s, false) -> Inv s /\ bk s = b.
+Proof. exact reach_Inv. Qed.
+Print Assumptions evl_invariant_reachable.
+
+(* adding, capacity-rejecting or removing one context leaves every other context's registration
+   and pending data untouched:
+   (1) add: every other context's state is unchanged and the new context goes behind the existing
+       entries of every table; a refused add changes no table at all;
+   (2) poll's swap-with-last: the array without slot i is a permutation of the new array, slot 0
+       (signal fd) and every slot below i stay in place, revents travel with their context;
+   (3) select's rebuild (repaired code): after a pass allset holds no descriptor of a context that is
+       no longer registered;
+   (4) between passes: ctx_list has no duplicates, poll's array is the signal fd followed by a
+       permutation of ctx_list, epoll's interest list holds registered contexts only. *)
+Theorem evl_add_reject_remove_isolated :
+  (forall y s, cadded (cx s y) = false -> y <> 0 ->
+     let s' := do_act (AAdd y) s in
+     (forall x, x <> y -> cx s' x = cx s x) /\ cq (cx s' y) = cq (cx s y) /\
+     ((tr s' = EAct (AAdd y) 0 :: tr s /\ clist s' = clist s ++ [y] /\
+       (exists l, parr s' = parr s ++ l) /\ (forall x, In x (sset s) -> In x (sset s')) /\
+       (exists l, ereg s' = ereg s ++ l) /\ (exists l, erdl s' = erdl s ++ l)) \/
+      (tr s' = EAct (AAdd y) 2 :: tr s /\ tables_same s s'))) /\
+  (forall l i p, nth_error l i = Some p ->
+     Permutation l (p :: poll_remove i l) /\
+     (1 <= i -> hd_error (poll_remove i l) = hd_error l) /\
+     (forall j, j < i -> nth_error (poll_remove i l) j = nth_error l j)) /\
+  (forall rep n s, Nat.ltb 0 n = true -> no_stale (dispatch_select rep n s)) /\
+  (forall b sc os s, runs b sc os = (s, false) ->
+     NoDup (clist s) /\
+     (b = BPoll -> hd_error (map fst (parr s)) = Some 0 /\ Permutation (map fst (parr s)) (0 :: clist s)) /\
+     (b = BEpoll -> forall x, In x (ereg s) -> x = 0 \/ In x (clist s))).
+Proof. exact iso_all. Qed.
+Print Assumptions evl_add_reject_remove_isolated.
+
+(* FULL STATEMENT evl_backends_agree: forall sc fuel, in_S sc = true -> the three loops (on the
+   model's kernel function, [runks]) have exited -> agree sc fuel   (same bytes offered, same
+   closed/cleared outcome for every context).  NOT PROVED.
+   PROVED PART: a visit (read callback with its triggered actions, flagging, close callback and
+   removal from ctx_list) transforms the shared state identically in the three back-ends as long as
+   the poll table has room for the adds; the back-ends therefore differ only in the order of visits
+   and in when a flagged context is noticed. *)
+Theorem evl_backends_agree_partial : forall x s s', shared s = shared s' -> read_room x s -> read_room x s' ->
+  shared (cb_read x s) = shared (cb_read x s') /\
+  shared (set_flag x s) = shared (set_flag x s') /\
+  shared (set_clist (rm x (clist (cb_close x s))) (cb_close x s)) =
+  shared (set_clist (rm x (clist (cb_close x s'))) (cb_close x s')).
+Proof. exact agree_visit. Qed.
+Print Assumptions evl_backends_agree_partial.
+
+(* outside S agreement fails: the known finding cross-shutdown (findings/C13-cross-shutdown.case) *)
+Theorem evl_backends_agree_refuted : exists sc fuel,
+  in_S sc = false /\
+  snd (runks BSelect sc fuel) = true /\ snd (runks BPoll sc fuel) = true /\ snd (runks BEpoll sc fuel) = true /\
+  ~ agree sc fuel.
+Proof. exact agree_refuted. Qed.
+Print Assumptions evl_backends_agree_refuted.
